@@ -18,6 +18,7 @@ func init() {
 }
 
 func runC21(c *Ctx) {
+	sweepC21(c)
 	const pk = "pkcs12"
 	if f := c.fn(pk, "getSafeContents"); f != nil {
 		acc := acceptReturns(f, 2)
